@@ -60,3 +60,49 @@ def validate(module, cfg, trace_path, timeout=600, xmx="4g", env=None):
         return dict(accepted=False, rejected_at=rej[-1]["rejected_at"], event=rej[-1].get("event"), res=res)
     tail = "\n".join(res.stdout.splitlines()[-40:])
     raise ToolError("trace validation did not conclude (%s %s):\n%s" % (module, trace_path, tail))
+
+
+def validate_parallel(module, cfg, events, boundaries, k=8, timeout=3000, xmx="3g", name="par"):
+    """Split a recorded trace at run boundaries (list of (start, end) event index pairs, each a self-contained
+    Open..Close run) into k chunks validated by k TLC processes in parallel.
+    Returns dict(accepted, fails=[0-based event indices], results=[TlcResult...])."""
+    import concurrent.futures, json as _json
+    k = max(1, min(k, len(boundaries)))
+    chunks = [[] for _ in range(k)]
+    # contiguous chunks of roughly equal event counts
+    total = sum(b - a for a, b in boundaries)
+    target = total / k
+    ci, acc = 0, 0
+    for a, b in boundaries:
+        if acc >= target * (ci + 1) and ci < k - 1:
+            ci += 1
+        chunks[ci].append((a, b))
+        acc += b - a
+    jobs = []
+    d = scratch("trace-" + name)
+    for i, ch in enumerate(chunks):
+        if not ch:
+            continue
+        path = os.path.join(d, "chunk%d.ndjson" % i)
+        idxmap = []
+        with open(path, "w") as f:
+            for a, b in ch:
+                for j in range(a, b):
+                    f.write(_json.dumps(events[j], separators=(",", ":")) + "\n")
+                    idxmap.append(j)
+        jobs.append((path, idxmap))
+
+    def work(job):
+        path, idxmap = job
+        v = validate(module, cfg, path, timeout=timeout, xmx=xmx)
+        return v, idxmap
+
+    fails, results = [], []
+    with concurrent.futures.ThreadPoolExecutor(max_workers=len(jobs)) as ex:
+        for v, idxmap in ex.map(work, jobs):
+            results.append(v["res"])
+            if not v["accepted"]:
+                at = v["rejected_at"]
+                raise ToolError("trace structurally rejected at event %s: %s" % (idxmap[at - 1] if at - 1 < len(idxmap) else at, _json.dumps(v.get("event"))[:400]))
+            fails += [idxmap[f - 1] for f in v["fails"]]
+    return dict(accepted=True, fails=sorted(fails), results=results)
